@@ -18,7 +18,7 @@ CTOR = {"get_stream": "QGetStream", "delete_stream": "QDeleteStream", "purge_str
         "get_user": "QGetUser", "delete_user": "QDeleteUser", "get_topic": "QGetTopic", "delete_topic": "QDeleteTopic",
         "purge_topic": "QPurgeTopic", "get_groups": "QGetGroups", "get_group": "QGetGroup", "delete_group": "QDeleteGroup",
         "join_group": "QJoinGroup", "leave_group": "QLeaveGroup"}
-NAMED_CODES = {202, 204, 602}
+NAMED_CODES = {202, 204, 602, 302, 304, 33, 35, 37, 38, 42, 43, 44}
 
 
 def rid(rng, short=False):
@@ -44,7 +44,9 @@ def opt_term(o):
 
 def gen_req(rng, short=False):
     k = rng.choice(["poll", "poll", "store_offset", "get_offset", "delete_offset"] + KINDS1 + KINDS2 + KINDS3 +
-                   ["create_partitions", "delete_partitions", "create_stream", "update_stream", "create_group"])
+                   ["create_partitions", "delete_partitions", "create_stream", "update_stream", "create_group"] +
+                   ["create_topic", "update_topic", "create_user", "update_user", "change_password", "login_user", "flush", "get_client",
+                    "create_pat", "delete_pat", "login_pat"])
     cons = [rng.random() < 0.5, rid(rng, short)]
     s_, t_, g_ = rid(rng, short), rid(rng, short), rid(rng, short)
     p = rng.choice([None, 1, 2, 1000, 4294967295])
@@ -78,9 +80,47 @@ def gen_req(rng, short=False):
     elif k == "update_stream":
         q = {"k": k, "s": s_, "name": nm}
         term = C("QUpdateStream", ident_term(s_), name_term(nm))
-    else:
+    elif k == "create_group":
         q = {"k": k, "s": s_, "t": t_, "id": p, "name": nm}
         term = C("QCreateGroup", ident_term(s_), ident_term(t_), opt_term(p), name_term(nm))
+    else:
+        def word(lo, hi):
+            return "".join(rng.choice("abcdefXYZ09_-") for _ in range(lo if short else rng.choice([lo, lo + 1, 8, hi])))
+        big = lambda: rng.choice([0, 1, 1000000, 2**63, 2**64 - 1])
+        comp, repl = rng.choice([1, 2]), rng.choice([None, 1, 3, 255])
+        ostr = lambda: rng.choice([None, "v", "0.6.30", "x" * 300])
+        if k == "create_topic":
+            q = {"k": k, "s": s_, "id": p, "n": rng.choice([0, 1, 1000, 4294967295]), "comp": comp, "expiry": big(), "max": big(), "repl": repl, "name": nm}
+            term = C("QCreateTopic", ident_term(s_), opt_term(p), q["n"], comp, q["expiry"], q["max"], opt_term(repl), name_term(nm))
+        elif k == "update_topic":
+            q = {"k": k, "s": s_, "t": t_, "comp": comp, "expiry": big(), "max": big(), "repl": repl, "name": nm}
+            term = C("QUpdateTopic", ident_term(s_), ident_term(t_), comp, q["expiry"], q["max"], opt_term(repl), name_term(nm))
+        elif k == "create_user":
+            q = {"k": k, "name": word(3, 50), "pw": word(3, 100), "status": rng.choice([1, 2])}
+            term = C("QCreateUser", name_term(q["name"]), name_term(q["pw"]), q["status"])
+        elif k == "update_user":
+            q = {"k": k, "s": s_, "uname": rng.choice([None, word(1, 50)]), "status": rng.choice([None, 1, 2])}
+            term = C("QUpdateUser", ident_term(s_), C("Some", name_term(q["uname"])) if q["uname"] is not None else None, opt_term(q["status"]))
+        elif k == "change_password":
+            q = {"k": k, "s": s_, "cur": word(3, 100), "new": word(3, 100)}
+            term = C("QChangePassword", ident_term(s_), name_term(q["cur"]), name_term(q["new"]))
+        elif k == "login_user":
+            q = {"k": k, "name": word(1, 50), "pw": word(1, 100), "version": ostr(), "context": ostr()}
+            term = C("QLoginUser", name_term(q["name"]), name_term(q["pw"]),
+                     C("Some", name_term(q["version"])) if q["version"] is not None else None,
+                     C("Some", name_term(q["context"])) if q["context"] is not None else None)
+        elif k == "flush":
+            q = {"k": k, "s": s_, "t": t_, "n": rng.choice([0, 1, 7, 4294967295]), "fsync": rng.random() < 0.5}
+            term = C("QFlush", ident_term(s_), ident_term(t_), q["n"], q["fsync"])
+        elif k == "get_client":
+            q = {"k": k, "n": rng.choice([0, 1, 77, 4294967295])}
+            term = C("QGetClient", q["n"])
+        elif k == "create_pat":
+            q = {"k": k, "name": word(3, 30), "expiry": big()}
+            term = C("QCreatePat", name_term(q["name"]), q["expiry"])
+        else:
+            q = {"k": k, "name": word(3, 30)}
+            term = C("QDeletePat" if k == "delete_pat" else "QLoginPat", name_term(q["name"]))
     return q, term
 
 
